@@ -100,14 +100,23 @@ WireFieldRules(ver, status, m, w) ==
 \* RFC 9110 10.1.1: a client that announced Expect: 100-continue and received a final response before it
 \* started the body may withhold the body - but then it must not reuse the connection (checked at quiescence)
 Withheld(w) == w.expect /\ w.after = 0 /\ (w.cl > 0 \/ w.te = "chunked")
+\* More generally a client may stop in mid-body when the final response is already complete (the handler answered
+\* without reading the body).  What is on the wire is then a proper prefix of the declared body; the connection
+\* must not carry another request and the server must not keep waiting on it (checked at quiescence).
+Unfinished(w) == \/ Withheld(w)
+                 \/ (w.te = "none" /\ w.cl > 0 /\ w.after < w.cl)
+                 \/ (w.te = "chunked" /\ ~w.chunkOk /\ w.chunkShort)
 ReqWireClause(e) ==
     LET i == st["issue"]
         o == Rfc9112ReqBodyLength(Fields(e))
         fr == WireFieldRules(e.ver, 0, "", e)
-        wh == Withheld(e)
+        wh == Unfinished(e)
+        noHost == SelectSeq(i.hdrs, LAMBDA p : p[1] # "host")
     IN  IF ~e.present THEN "RequestNotSent"
         ELSE IF e.method # i.method THEN "MethodSame"
         ELSE IF e.ver # i.ver THEN "VersionSame"
+        ELSE IF ~Contains(e.hdrs, i.hdrs)
+            THEN (IF e.attempt > 0 /\ Contains(e.hdrs, noHost) THEN "HostDroppedOnRetry" ELSE "HeadersSame")
         ELSE IF fr # "" THEN fr
         ELSE IF o.k = "Error" THEN "ReqFramingTruthful"
         ELSE IF o.k = "Empty" /\ e.after # 0
@@ -117,7 +126,6 @@ ReqWireClause(e) ==
             THEN (IF e.chunkOk /\ e.dataLen = o.n THEN "ChunkFramingWithContentLength" ELSE "ReqFramingTruthful")
         ELSE IF o.k = "Chunked" /\ ~ChunkedWellFormed(e) THEN "ReqFramingTruthful"
         ELSE IF i.bodyKnown /\ (WireBody(o, e).len # i.bodyLen \/ WireBody(o, e).crc # i.bodyCrc) THEN "ReqBodySame"
-        ELSE IF ~Contains(e.hdrs, i.hdrs) THEN "HeadersSame"
         ELSE ""
 
 HandlerClause(e) ==
@@ -125,7 +133,7 @@ HandlerClause(e) ==
         w == st["reqwire"]
         o == Rfc9112ReqBodyLength(Fields(w))
         wb == WireBody(o, w)
-    IN  IF e.entered = 0
+    IN  IF e.entered = 0 /\ ~e.rejected          \* rejected: the route's expect handler answered instead of the handler
             THEN (IF i.method = "HEAD" /\ w.after > 0 THEN "HeadRequestBodyDropped" ELSE "RequestNotDelivered")
         ELSE IF e.entered > 1 THEN "RequestDeliveredTwice"
         ELSE IF e.method # i.method THEN "MethodSame"
@@ -136,7 +144,8 @@ HandlerClause(e) ==
         ELSE IF ~Contains(e.hdrs, i.hdrs) THEN "HeadersSame"
         ELSE IF ~CombinedOk(e.hdrs, e.hmap) THEN "HeaderMapSame"
         ELSE IF e.cookies # i.cookies THEN "CookiesSame"
-        ELSE IF Withheld(w) THEN ""
+        ELSE IF e.rejected \/ ~e.bodyRead THEN ""      \* nobody read the body: nothing to compare
+        ELSE IF Unfinished(w) THEN "UnfinishedBodyDelivered"
         ELSE IF e.bodyExc # "" THEN "ReqBodyReadFailed"
         ELSE IF e.bodyLen # wb.len \/ e.bodyCrc # wb.crc
             THEN (IF i.method = "HEAD" /\ e.bodyLen = 0 THEN "HeadRequestBodyDropped" ELSE "ReqReceiverFollowsRfc")
@@ -157,17 +166,30 @@ RespWireClause(e) ==
         ELSE IF fr # "" THEN fr
         ELSE IF o.k = "Error" THEN "FramingTruthful"
         ELSE IF o.k = "Empty" /\ e.after # 0
-            THEN (IF r.refused # "" THEN "ErrorPageThroughStaleWriter"
+            THEN (IF r.refused # "" THEN (IF e.chunkOk THEN "ErrorPageThroughChunkingWriter" ELSE "ErrorPageThroughStaleWriter")
                   ELSE IF e.ce # "" THEN "CompressedBytesAfterEmptyHead"
                   ELSE IF i.method = "HEAD" THEN "BodySentForHead" ELSE "FramingTruthful")
         ELSE IF o.k = "Length" /\ e.after # o.n
-            THEN (IF r.refused # "" THEN "ErrorPageThroughStaleWriter" ELSE "FramingTruthful")
+            THEN (IF r.refused # "" THEN (IF e.chunkOk /\ e.dataLen = o.n THEN "ErrorPageThroughChunkingWriter"
+                                         ELSE "ErrorPageThroughStaleWriter")
+                  ELSE "FramingTruthful")
         ELSE IF o.k = "Chunked" /\ ~ChunkedWellFormed(e) THEN "FramingTruthful"
         ELSE IF r.bodyKnown /\ o.k \in {"Length", "Chunked"}
                 /\ (WireBody(o, e).len # r.bodyLen \/ WireBody(o, e).crc # r.bodyCrc)
             THEN "RespBodySame"
         ELSE IF ~Contains(e.hdrs, r.hdrs) THEN "HeadersSame"
         ELSE ""
+
+\* the caller was cancelled (before the response head / inside the response body): the connection of the abandoned
+\* exchange must never serve another request, and the next request must get its own response
+AbortedQuiesce(e) ==
+    IF ~e.cliDone THEN "ClientLeftWaiting"
+    ELSE IF ~e.cliClosedOwn THEN "CancelledExchangeConnectionReused"
+    ELSE IF e.probe = "foreign" THEN "NextRequestAnsweredWithForeignResponse"
+    ELSE IF e.probe # "ok" THEN "NextRequestFails"
+    ELSE IF ~e.probeNewConn THEN "ProbeReusedClosedConnection"
+    ELSE IF ~e.reqHdrsIntact THEN "CallerHeadersMutated"
+    ELSE ""
 
 QuiesceClause(e) ==
     LET i == st["issue"]
@@ -183,10 +205,15 @@ QuiesceClause(e) ==
         ELSE IF o.k = "UntilEOF" /\ srvKeeps
             THEN (IF w.ver = 10 /\ q.conn = "keep-alive" THEN "Http10KeepAliveEofBodyServerOpen" ELSE "NoHang")
         ELSE IF ~e.cliDone THEN "ClientLeftWaiting"
-        ELSE IF Withheld(q) /\ ~e.cliClosedOwn
-            THEN (IF i.method = "HEAD" THEN "HeadRequestBodyDropped" ELSE "WithheldBodyConnectionReused")
+        ELSE IF Unfinished(q) /\ ~e.cliClosedOwn
+            THEN (IF i.method = "HEAD" /\ ~HeadReqBodyFramed THEN "HeadRequestBodyDropped"
+                  ELSE IF Withheld(q) THEN "WithheldBodyConnectionReused"
+                  ELSE "UnfinishedBodyConnectionReused")
+        ELSE IF Unfinished(q) /\ srvKeeps /\ ~(i.method = "HEAD" /\ ~HeadReqBodyFramed) THEN "UnfinishedBodyServerKeepsConnection"
         ELSE IF r.bodyKnown /\ o.k = "UntilEOF" /\ (WireBody(o, w).len # r.bodyLen \/ WireBody(o, w).crc # r.bodyCrc)
             THEN "RespBodySame"
+        ELSE IF ~e.reqHdrsIntact THEN "CallerHeadersMutated"
+        ELSE IF ~e.respHdrsIntact THEN "HandlerHeadersMutated"
         ELSE IF srvKeeps # cliReuses
             THEN (IF i.method = "CONNECT" THEN (IF srvKeeps THEN "CloseAgree" ELSE "ConnectClosedByServer")
                   ELSE IF w.conn = "close" /\ srvKeeps THEN "ConnCloseSentServerOpen"
@@ -196,6 +223,7 @@ QuiesceClause(e) ==
                   ELSE "CloseAgree")
         ELSE IF i.method = "CONNECT" /\ w.status \in 200..299 /\ cliReuses THEN "ConnectPooledByClient"
         ELSE IF e.probe = "skipped" THEN ""
+        ELSE IF e.probe = "foreign" THEN "NextRequestAnsweredWithForeignResponse"
         ELSE IF e.probe # "ok" THEN "NextRequestFails"
         ELSE IF srvKeeps /\ cliReuses /\ e.probeNewConn THEN "ProbeNewConnectionThoughBothKeep"
         ELSE IF ~(srvKeeps /\ cliReuses) /\ ~e.probeNewConn THEN "ProbeReusedClosedConnection"
@@ -258,8 +286,13 @@ RespDrift(e) ==
     ELSE LET d == SrvDecide(c.rinp, Sz0)
              r == st["returned"] IN
          IF d.refused # (r.refused # "") THEN "resp:refused"
-         ELSE IF d.refused THEN (IF ModelSentShape(d.sent, d.sent # 0 /\ d.sent # Sz0.n, Sz0) # SentShape(e.after, e, IF e.after # e.cl THEN "x" ELSE "", e.cl)
-                                 THEN "resp:refused-sent" ELSE "")
+         ELSE IF d.refused
+             THEN LET chunkedSeen == e.chunkOk /\ e.after > 0                \* the 500 page went out chunk-framed
+                      dlen == IF chunkedSeen THEN e.dataLen ELSE e.after
+                      seen == IF dlen = 0 THEN "0" ELSE IF dlen = e.cl THEN "n" ELSE "z"
+                      want == IF d.sent = 0 THEN "0" ELSE IF d.sent = Sz0.n THEN "n" ELSE "z"
+                  IN IF d.wChunked # chunkedSeen THEN "resp:refused-writer-mode"
+                     ELSE IF want # seen THEN "resp:refused-sent" ELSE ""
          ELSE IF d.te # e.te THEN "resp:te"
          ELSE IF d.conn # e.conn THEN "resp:conn"
          ELSE IF d.ce # (e.ce # "") THEN "resp:ce"
@@ -270,6 +303,7 @@ RespDrift(e) ==
 
 QuiesceDrift(e) ==
     LET c == Cfg(tid) IN
+    IF "aborted" \in DOMAIN st THEN "" ELSE
     IF ~c.rvalid \/ c.family # "resp" \/ "respwire" \notin DOMAIN st \/ ~st["respwire"].present THEN ""
     ELSE LET d == SrvDecide(c.rinp, Sz0)
              k == CliDecide(c.rinp, d) IN
@@ -285,11 +319,12 @@ Step(e) ==
       [] e.ev = "handler"  -> [bad |-> HandlerClause(e), drift |-> "", stop |-> FALSE]
       [] e.ev = "returned" -> [bad |-> "", drift |-> "", stop |-> FALSE]
       [] e.ev = "respwire" -> [bad |-> RespWireClause(e), drift |-> RespDrift(e), stop |-> FALSE]
-      [] e.ev = "quiesce"  -> LET c == QuiesceClause(e) IN
+      [] e.ev = "aborted"  -> [bad |-> "", drift |-> "", stop |-> FALSE]
+      [] e.ev = "quiesce"  -> LET c == IF "aborted" \in DOMAIN st THEN AbortedQuiesce(e) ELSE QuiesceClause(e) IN
                               IF c \in SoftDevs THEN [bad |-> "", dev |-> c, drift |-> QuiesceDrift(e), stop |-> FALSE]
                               ELSE [bad |-> c, drift |-> QuiesceDrift(e), stop |-> FALSE]
       [] e.ev = "early"    -> [bad |-> EarlyQuiesce(e), drift |-> "", stop |-> FALSE]
-      [] e.ev = "caller"   -> [bad |-> CallerClause(e), drift |-> "", stop |-> FALSE]
+      [] e.ev = "caller"   -> [bad |-> IF "aborted" \in DOMAIN st THEN "" ELSE CallerClause(e), drift |-> "", stop |-> FALSE]
       [] OTHER             -> [bad |-> "UnknownEvent", drift |-> "", stop |-> FALSE]
 
 \* A HEAD request that declares a body: the server parser skips the body, so everything that goes wrong with that
@@ -298,6 +333,7 @@ HeadBodyCascade == {"ReqFramingTruthful", "CloseAgree", "RequestNotDelivered", "
                     "WithheldBodyConnectionReused", "NextRequestFails", "ClientLeftWaiting",
                     "FramingTruthful", "BodySentForHead"}     \* the 400 answering the stray body follows the HEAD response
 HeadWithBody(e) ==
+    ~HeadReqBodyFramed /\           \* (only while that deviation is open)
     LET w == IF e.ev = "reqwire" THEN e ELSE IF "reqwire" \in DOMAIN st THEN st["reqwire"] ELSE [present |-> FALSE] IN
     /\ w.present /\ w.method = "HEAD" /\ (w.cl > 0 \/ w.te = "chunked")
 
@@ -307,7 +343,8 @@ NextEvents(prev) ==
       [] prev = "issue"    -> {"early", "reqwire"}
       [] prev = "early"    -> {"reqwire"}
       [] prev = "reqwire"  -> {"handler"}
-      [] prev = "handler"  -> {"returned"}
+      [] prev = "handler"  -> {"returned", "aborted"}
+      [] prev = "aborted"  -> {"quiesce"}
       [] prev = "returned" -> {"respwire"}
       [] prev = "respwire" -> {"quiesce"}
       [] prev = "quiesce"  -> {"caller"}
